@@ -139,3 +139,11 @@ func verifHasMethod(ms []string, m string) bool {
 	}
 	return false
 }
+
+
+// Optional white-box probes (set by probes_wb.go; nil when that file does not
+// compile against the tree under test).
+var (
+	verifCacheLen   func(r *Router) int
+	verifGroupState func(r *Router) (string, HandlersChain)
+)
